@@ -902,7 +902,9 @@ impl CompressionBmi2Dispatcher {
                     let mut remaining_mask = mask;
                     
                     while remaining_mask != 0 {
-                        if packed_data & remaining_mask & (!remaining_mask + 1) != 0 {
+                        // like the BMI2 route, keep the low 32 bits of the extracted field
+                        // (`1u32 << bit_idx` wraps around for bit_idx >= 32)
+                        if bit_idx < 32 && packed_data & remaining_mask & (!remaining_mask + 1) != 0 {
                             result |= 1u32 << bit_idx;
                         }
                         bit_idx += 1;
